@@ -571,8 +571,11 @@ class Skeletons:
                 src, used = self.streams[var]
                 if src is not None and not used:
                     desc = ("fails", src, tuple(kinds))
-            elif ">>" in n and any(re.search(r"\b" + re.escape(v) + r"\b", n) for v in self.streams):
-                desc = ("other",)      # e.g. `istr >> f` inside the element loop of g3_obs_cov
+            elif ">>" in n and any(re.search(r"\b" + re.escape(v) + r"\s*>>", n) for v in self.streams):
+                # an extraction in a condition of another shape: only the bare `istr >> f` (element loop of g3_obs_cov) is known
+                if not re.fullmatch(r"\w+>>\w+", n):
+                    fail(f"{w}: unrecognised condition with a stream extraction: {n[:100]}")
+                desc = ("other",)
         self.note_streams(cond, f)
         return desc
 
